@@ -1,11 +1,15 @@
 import Lemmas.EvalFull
+import Lemmas.EvalBound
+import Lemmas.EvalVars
 import Generated.Facts
 /-! # C09 — expression evaluation follows operator precedence and never crashes
 
 Property theorems only.  The executable model is `Model/Eval.lean` (`Eval.parseLoop`, `processOperator`, `parseTop`,
 `evalNode`, `evaluate` … — the definitions the driver `drv_c09` runs against `eval.Evaluator` on every check); helper
 lemmas are in `Lemmas/EvalTotal.lean` (totality), `Lemmas/EvalTok.lean` (token machine, spine invariant),
-`Lemmas/EvalLex.lean` (lexing bridge) and `Lemmas/EvalRender.lean`.  The operator tables are
+`Lemmas/EvalLex.lean` (lexing bridge), `Lemmas/EvalCall.lean` (call capture, `NextArg`), `Lemmas/EvalRender.lean`,
+`Lemmas/EvalFull.lean` (the full language `X`), `Lemmas/EvalVars.lean` (variables) and `Lemmas/EvalBound.lean`
+(no panic for `Evaluate`).  The operator tables are
 `Facts.fixedOperators` / `Facts.floatOperators`, regenerated from the Go source on every run. -/
 namespace C09
 open Eval
@@ -70,20 +74,18 @@ theorem table_lookup (o : Op) (ho : o ∈ stdOps) (pre rest : Bytes) (hpre : NoE
            simp [h61])
 
 /-- the side conditions of the lexing layer hold for the regenerated table: no empty symbol, no symbol starts with a
-    blank, `=` starts a symbol, no unary operator starts with `=`, no symbol ends in `e` -/
+    blank, `=` starts a symbol, no unary operator starts with `=`, no symbol ends in `e`, `-` is the only symbol starting with `-` -/
 theorem table_lexable : LexTable stdOps where
   ne := symsNonempty_of_all _ (by decide)
   blank := by
     intro c hc
     simp [isScanSpace] at hc
     rcases hc with ((h | h) | h) | h <;> subst h <;> decide
+  minus := by decide
   fm := table_lookup
   eq61 := by decide
   un61 := by decide
   lastE := by decide
-
-theorem lpOp_eq : lpOp = ⟨LP, 0, false, false⟩ := by decide
-theorem rpOp_eq : rpOp = ⟨RP, 0, false, false⟩ := by decide
 
 /-- the side conditions of the call layer hold for the regenerated table: `(` and `)` are found at every `(` / `)`
     byte (they are the first two entries), and no other operator symbol contains `(`, `)`, `,` or `$` -/
@@ -94,12 +96,12 @@ theorem table_full : FullTable stdOps lpOp rpOp where
   lpU := by decide
   lp40 := by
     intro pre t
-    rw [lpOp_eq]
+    rw [show lpOp = ⟨LP, 0, false, false⟩ by decide]
     simp [firstMatch, stdOps, opsOf, Facts.fixedOperators, symBytes, String.utf8EncodeChar, Op.matchAt, MINUS, LP,
       List.find?, List.isPrefixOf]
   rp41 := by
     intro pre t
-    rw [rpOp_eq]
+    rw [show rpOp = ⟨RP, 0, false, false⟩ by decide]
     simp [firstMatch, stdOps, opsOf, Facts.fixedOperators, symBytes, String.utf8EncodeChar, Op.matchAt, MINUS, RP,
       List.find?, List.isPrefixOf]
   lpM := by decide
@@ -124,8 +126,8 @@ theorem table_full : FullTable stdOps lpOp rpOp where
     printable ASCII bytes that start no operator and do not end in `e`), the binary operators of the table, signs/
     negations before atoms and before parentheses, and parentheses, rendered with parentheses wherever precedence and
     left associativity require them (`WF`) and with ANY runs of blank/tab/newline/return between tokens: the model
-    parser returns exactly the expression tree.  Restricted (hence `_partial`): no function calls, no exponent
-    literals `1e-2`, no variables containing operator bytes. -/
+    parser returns exactly the expression tree.  Token-level form of `parse_render` below (`_partial`: a call is
+    one token `f b ( text )` whose argument text is only required to be balanced, `E.In`). -/
 theorem parse_render_partial (fns : List Bytes) (e : E) (hw : e.WF lpOp.prec) (hin : e.In stdOps fns)
     (ws : Nat → Bytes) (hws : ∀ k, Blank (ws k)) :
     parseTop stdOps fns (render ws 0 (e.toks lpOp rpOp)) = .ok (some e.toTree) :=
@@ -138,19 +140,52 @@ theorem parse_render_float_partial (fns : List Bytes) (e : E) (hw : e.WF lpOp.pr
     parseTop floatOps fns (render ws 0 (e.toks lpOp rpOp)) = .ok (some e.toTree) := by
   rw [float_table_eq]; exact parse_render_partial fns e hw hin ws hws
 
-/-- the part of the full statement still open — function calls: for a function name `f` of the table and well-formed
-    argument expressions in any layout, `f ( a₁ , … , aₙ )` parses to the call node holding the raw argument text
-    (captured by parenthesis counting), and `NextArg` splits that text back into the renderings of the arguments
-    (which a fresh evaluator then parses by `parse_render_partial`).  Exponent literals such as `1e-2` as atoms are
-    the other missing piece.  Both are exercised on every run by the `wf` oracle and the `struct` differential
-    stream (nested calls, three layouts), not proved. -/
-def parse_render_Statement : Prop :=
-  ∀ (fns : List Bytes) (f : Bytes) (args : List E) (ws : Nat → Bytes),
-    f ∈ fns → AtomOK stdOps f → (∀ k, Blank (ws k)) →
-    (∀ a ∈ args, a.WF lpOp.prec ∧ a.In stdOps ∧ (44 : Nat) ∉ render ws 0 (a.toks lpOp rpOp)) →
-    let texts := args.map (fun a => render ws 0 (a.toks lpOp rpOp))
-    parseTop stdOps fns (f ++ LP ++ joinComma texts ++ RP) = .ok (some (.func none f (joinComma texts))) ∧
-    (args ≠ [] → splitArgs ((joinComma texts).length + 1) (joinComma texts) = texts)
+/-- **parse ∘ render = tree for the full expression language** (clauses "conventional precedence", "left-to-right
+    associativity", "whitespace never changes the result", structure part): for every expression `e : X` built from
+    atoms (numeric literals incl. exponent literals `1.2e-2`, variables `$x`: non-empty runs of printable ASCII that
+    start no operator except an exponent `-`, not ending in `e`), function calls `f ( a₁ , … , aₙ )` with `f` a
+    defined function name and arbitrarily nested arguments, the binary operators of the table, signs/negations before
+    atoms, calls and parentheses, and parentheses — written with parentheses wherever precedence and left
+    associativity require them (`X.WF`) and with ANY runs of blank/tab/newline/return between ANY two tokens (top
+    level: `ws`; between a function name and `(`, around commas and inside arguments: stored in the call node) —
+    the model parser returns exactly the expression tree; a call node holds the name and the raw argument text. -/
+theorem parse_render (fns : List Bytes) (e : X) (hw : e.WF stdOps fns lpOp.prec) (ws : Nat → Bytes)
+    (hws : ∀ k, Blank (ws k)) :
+    parseTop stdOps fns (e.render lpOp rpOp ws) = .ok (some (e.tree lpOp rpOp)) :=
+  X.parse_render stdOps fns lpOp rpOp table_full e hw ws hws
+
+/-- the same for the table of the floating-point evaluator -/
+theorem parse_render_float (fns : List Bytes) (e : X) (hw : e.WF stdOps fns lpOp.prec) (ws : Nat → Bytes)
+    (hws : ∀ k, Blank (ws k)) :
+    parseTop floatOps fns (e.render lpOp rpOp ws) = .ok (some (e.tree lpOp rpOp)) := by
+  rw [float_table_eq]; exact parse_render fns e hw ws hws
+
+/-- mechanism "function call capture by parenthesis matching", for EVERY text: the loop of `processFunction` stops
+    exactly at the first `)` byte that brings the count of `(` / `)` bytes to zero — all other operators found on the
+    way are ignored (`parenSplit` is that byte count) -/
+theorem call_capture (fuel d : Nat) (pre rest acc : Bytes) (hd : 1 ≤ d) (hf : rest.length < fuel) :
+    captureArgs stdOps fuel d pre rest acc =
+      (match parenSplit d rest with
+       | some (a, r) => .ok (acc ++ a, rpOp, a.reverse ++ pre, 41 :: r)
+       | none => .err) :=
+  captureArgs_parenSplit stdOps table_lexable.ne lpOp rpOp table_full.toParenTable fuel d pre rest acc hd hf
+
+/-- … and on a rendered argument list it returns exactly that list: rendered arguments are balanced -/
+theorem call_capture_rendered (fns : List Bytes) (args : XL) (hw : args.WF stdOps fns lpOp.prec) (pre rest : Bytes) :
+    captureArgs stdOps ((joinComma (args.texts lpOp rpOp) ++ 41 :: rest).length + 1) 1 pre
+        (joinComma (args.texts lpOp rpOp) ++ 41 :: rest) [] =
+      .ok (joinComma (args.texts lpOp rpOp), rpOp, (joinComma (args.texts lpOp rpOp)).reverse ++ pre, 41 :: rest) := by
+  rw [call_capture _ 1 _ _ _ (Nat.le_refl 1) (Nat.lt_succ_self _),
+    bal_close _ (XL.texts_bal stdOps fns lpOp rpOp table_full args hw) rest]
+  simp
+
+/-- mechanism "argument splitting for functions": `NextArg`, iterated the way the functions do, splits the argument
+    text of a rendered call at exactly the commas that separate its arguments (commas inside nested calls and
+    parentheses do not split) -/
+theorem nextArg_split (fns : List Bytes) (args : XL) (hw : args.WF stdOps fns lpOp.prec) (he : args.Ev) :
+    splitArgs ((joinComma (args.texts lpOp rpOp)).length + 1) (joinComma (args.texts lpOp rpOp)) =
+      args.texts lpOp rpOp :=
+  XL.splitArgs_texts stdOps fns lpOp rpOp table_full args hw he _ (Nat.lt_succ_self _)
 
 /-- token level, any operator table: the two-stack machine (the model's own `pushOperand`, `pushEntry`, `closeParen`,
     `pushBinary`, `finish`) run on the tokens of a well-formed expression ends with exactly its tree -/
@@ -223,42 +258,116 @@ theorem eval_no_panic_partial (ops : List Op) (fns : List Bytes) (s : Bytes) (n 
     (hrv : ∀ s, rv s ≠ .panic) : evalNode ev rv n ≠ .panic :=
   evalNode_no_panic ev rv hev hrv n (parseTop_ok_node ops fns s n h)
 
-/-- the full robustness statement for `Evaluate` with symbolic operators, still open: it needs that resolvers return
-    text without `$` (otherwise the Go loop in `replaceVariables` does not terminate either) and a bound relating the
-    nesting of `EvaluateNew` through function arguments to the input length -/
-def evaluate_no_panic_Statement : Prop :=
-  ∀ (fns : List Bytes) (resolve : Bytes → Bytes) (s : Bytes), (∀ n, (36 : Nat) ∉ resolve n) →
-    (∀ n, (resolve n).length ≤ n.length + 1) → evaluate stdOps fns (some resolve) (s.length + 1) s ≠ .panic
+/-- clause "for every input string whatsoever, Evaluate returns a value or an error in bounded time without
+    panicking" for the whole of `Evaluate` with symbolic operators — parse, final reduction, tree walk,
+    `replaceVariables`, the argument loop of the functions and the nested `EvaluateNew`: for EVERY byte list, every
+    function table and every resolver whose answers contain no `$` (otherwise the Go loop in `replaceVariables` does
+    not terminate either) the model never reaches a Go panic and never exhausts a fuel.  The measure: every argument
+    text stored in a parsed tree is strictly shorter than the input (`parseTop_argsLt`), substitution does not
+    lengthen it, `NextArg` returns pieces of it — so each nested evaluation is on a strictly shorter text.  The second
+    hypothesis (an answer is not longer than `$name`) only serves the model's nesting budget `len + 1`, which the Go
+    code does not have. -/
+theorem evaluate_no_panic (fns : List Bytes) (resolve : Bytes → Bytes) (s : Bytes) (h36 : ∀ n, (36 : Nat) ∉ resolve n)
+    (hlen : ∀ n, (resolve n).length ≤ n.length + 1) :
+    evaluate stdOps fns (some resolve) (s.length + 1) s ≠ .panic :=
+  Eval.evaluate_no_panic stdOps fns table_lexable.ne (some resolve)
+    (by intro f hf; injection hf with hf; subst hf; exact ⟨h36, hlen⟩) _ s (Nat.lt_succ_self _)
+
+/-- the same for any operator table without an empty symbol, with or without a resolver, for every budget above the
+    input length, and for what the driver runs on every line (`evaluateReuse`, any previous evaluator state) -/
+theorem evaluate_no_panic_any (ops : List Op) (fns : List Bytes) (hne : SymsNonempty ops)
+    (resolve : Option (Bytes → Bytes))
+    (hres : ∀ f, resolve = some f → (∀ n, (36 : Nat) ∉ f n) ∧ (∀ n, (f n).length ≤ n.length + 1)) (s : Bytes) :
+    (∀ d, s.length < d → evaluate ops fns resolve d s ≠ .panic) ∧
+    (∀ old, (evaluateReuse ops fns resolve old s).2 ≠ .panic) :=
+  ⟨fun d hd => Eval.evaluate_no_panic ops fns hne resolve hres d s hd,
+   fun _ => Eval.evaluate_no_panic ops fns hne resolve hres _ s (Nat.lt_succ_self _)⟩
+
+/-- clause "returns a value or an error": `Evaluate` of every byte list yields a value or an error -/
+theorem evaluate_total (fns : List Bytes) (resolve : Bytes → Bytes) (s : Bytes) (h36 : ∀ n, (36 : Nat) ∉ resolve n)
+    (hlen : ∀ n, (resolve n).length ≤ n.length + 1) :
+    (∃ v, evaluate stdOps fns (some resolve) (s.length + 1) s = .ok v) ∨
+      evaluate stdOps fns (some resolve) (s.length + 1) s = .err := by
+  have := evaluate_no_panic fns resolve s h36 hlen
+  cases h : evaluate stdOps fns (some resolve) (s.length + 1) s with
+  | ok v => exact Or.inl ⟨v, rfl⟩
+  | err => exact Or.inr rfl
+  | panic => exact absurd h this
 
 /-- clause "evaluating the expression tree": evaluation of the tree of an expression applies each binary operator once
-    to the values of its two operands (left first) and each sign to the value of its operand — with operators that
-    bracket their arguments the value is the fully bracketed expression -/
-theorem eval_tree (ev : Bytes → R Bytes) (resolve : Option (Bytes → Bytes)) (e : E) (he : e.Evaluable) :
-    evalNode ev (replaceVariables resolve) e.toTree = .ok (some e.str) :=
-  Eval.eval_tree ev resolve e he
+    to the values of its two operands (left first), each sign to the value of its operand only, and each function to
+    the values of its arguments, each evaluated by a nested `Evaluate` of its text — with operators that bracket
+    their arguments and functions that list theirs the value is the fully bracketed expression `X.str` -/
+theorem eval_tree (fns : List Bytes) (resolve : Option (Bytes → Bytes)) (e : X) (hw : e.WF stdOps fns lpOp.prec)
+    (he : e.Ev) (depth : Nat) (hd : e.cd ≤ depth) :
+    evalNode (evaluate stdOps fns resolve depth) (replaceVariables resolve) (e.tree lpOp rpOp) = .ok (some e.str) :=
+  X.eval_tree stdOps fns resolve lpOp rpOp table_full e hw he depth hd
 
-/-- end to end, about the function the driver runs for the structure pass: `Evaluate` with symbolic operators on ANY
-    blank layout of a well-formed expression returns its fully bracketed form (so the value is determined by the
-    expression tree, not by the layout) -/
-theorem evaluate_render_partial (fns : List Bytes) (resolve : Option (Bytes → Bytes)) (e : E) (hw : e.WF lpOp.prec)
-    (hin : e.In stdOps fns) (he : e.Evaluable) (ws : Nat → Bytes) (hws : ∀ k, Blank (ws k)) (depth : Nat) :
-    evaluate stdOps fns resolve (depth + 1) (render ws 0 (e.toks lpOp rpOp)) = .ok e.str :=
-  evaluate_render stdOps fns resolve table_lexable lpOp rpOp (by decide) (by decide) table_full.toParenTable
-    e hw hin he ws hws depth
+/-- no operator symbol of the regenerated table starts with a character that may continue a variable name (so a
+    variable reference ends where the next token starts) -/
+theorem table_var_stop : ∀ o ∈ stdOps, ∀ c t, o.sym = c :: t → Stopper c :=
+  opStop_of_all stdOps (by decide)
 
-/-- clause "whitespace never changes the result" (structure part): two layouts of the same expression evaluate alike -/
-theorem whitespace_irrelevant_partial (fns : List Bytes) (resolve : Option (Bytes → Bytes)) (e : E)
-    (hw : e.WF lpOp.prec) (hin : e.In stdOps fns) (he : e.Evaluable) (ws₁ ws₂ : Nat → Bytes) (h₁ : ∀ k, Blank (ws₁ k))
-    (h₂ : ∀ k, Blank (ws₂ k)) (d₁ d₂ : Nat) :
-    evaluate stdOps fns resolve (d₁ + 1) (render ws₁ 0 (e.toks lpOp rpOp)) =
-      evaluate stdOps fns resolve (d₂ + 1) (render ws₂ 0 (e.toks lpOp rpOp)) := by
-  rw [evaluate_render_partial fns resolve e hw hin he ws₁ h₁ d₁, evaluate_render_partial fns resolve e hw hin he ws₂ h₂ d₂]
+/-- **Evaluate ∘ render = bracketed form** (main clause, structure part), end to end, about the function the driver
+    runs for the structure pass: for every well-formed expression of the full language — atoms (numeric literals incl.
+    exponent literals, variables `$name`), nested function calls, binary operators, signs, parentheses — in ANY blank
+    layout, and every resolver that answers the variables of the expression with literals (lexable atoms without `,`
+    and `$`), `Evaluate` with symbolic operators and functions returns the fully bracketed form of the expression with
+    the variables replaced: the value is determined by the expression tree (conventional precedence, left-to-right
+    associativity, a sign applies to its operand only, each argument of a call evaluated by a nested `Evaluate` of
+    its text after `replaceVariables` ran over the raw argument text), not by the layout. -/
+theorem evaluate_render (fns : List Bytes) (f : Bytes → Bytes) (e : X) (hw : e.WF stdOps fns lpOp.prec)
+    (he : e.EvAll stdOps f) (ws : Nat → Bytes) (hws : ∀ k, Blank (ws k)) (depth : Nat) (hd : e.cd ≤ depth) :
+    evaluate stdOps fns (some f) (depth + 1) (e.render lpOp rpOp ws) = .ok (e.substAll f).str :=
+  X.evaluate_render_all stdOps fns f lpOp rpOp table_full table_var_stop e hw he ws hws depth hd
 
-/-- `NextArg` splits at the first comma of an argument text whose first argument has no parentheses or commas (the
-    general statement — split at the first comma outside parentheses — is part of `parse_render_Statement`) -/
-theorem nextArg_split_partial (a b : Bytes) (ha : ∀ c ∈ a, c ≠ 40 ∧ c ≠ 41 ∧ c ≠ 44) :
-    nextArg (a ++ 44 :: b) = (a, b) := by
-  simp [nextArg, nextArgGo_flat a b ha]
+/-- … in particular with the budget the driver uses (`evaluateReuse`: input length + 1), whatever the evaluator held
+    before: the nesting depth of calls never exceeds the length of the text -/
+theorem evaluate_reuse_render (fns : List Bytes) (f : Bytes → Bytes) (e : X) (hw : e.WF stdOps fns lpOp.prec)
+    (he : e.EvAll stdOps f) (ws : Nat → Bytes) (hws : ∀ k, Blank (ws k)) (old : St) :
+    (evaluateReuse stdOps fns (some f) old (e.render lpOp rpOp ws)).2 = .ok (e.substAll f).str :=
+  evaluate_render fns f e hw he ws hws _ (X.cd_le_render lpOp rpOp e ws)
+
+/-- mechanism "variable substitution" inside calls: `replaceVariables` run over the raw argument text of a rendered
+    call yields the argument text of the call with the variables replaced (which `nextArg_split` then splits and a
+    nested `Evaluate` parses by `parse_render`) -/
+theorem replaceVariables_args (fns : List Bytes) (f : Bytes → Bytes) (args : XL) (hw : args.WF stdOps fns lpOp.prec)
+    (he : args.EvAll stdOps f) :
+    replaceVariables (some f) (joinComma (args.texts lpOp rpOp)) =
+      .ok (joinComma ((args.substAll f).texts lpOp rpOp)) :=
+  XL.replaceVariables_texts stdOps fns f lpOp rpOp table_full table_var_stop args hw he
+
+/-- the same for expressions without variables (`X.Ev`: no `$` in atoms), with any resolver or none -/
+theorem evaluate_render_closed (fns : List Bytes) (resolve : Option (Bytes → Bytes)) (e : X)
+    (hw : e.WF stdOps fns lpOp.prec) (he : e.Ev) (ws : Nat → Bytes) (hws : ∀ k, Blank (ws k)) (depth : Nat)
+    (hd : e.cd ≤ depth) :
+    evaluate stdOps fns resolve (depth + 1) (e.render lpOp rpOp ws) = .ok e.str :=
+  X.evaluate_render stdOps fns resolve lpOp rpOp table_full e hw he ws hws depth hd
+
+/-- variables outside call arguments may be answered with ANY non-blank text without `$` (not only with literals;
+    e.g. ` 6 `): the value of such an atom is the answer as it is.  `_partial`: no variables inside call arguments
+    here (`X.EvV`); `evaluate_render` has them, for literal answers. -/
+theorem evaluate_render_vars_partial (fns : List Bytes) (f : Bytes → Bytes) (e : X) (hw : e.WF stdOps fns lpOp.prec)
+    (he : e.EvV f) (ws : Nat → Bytes) (hws : ∀ k, Blank (ws k)) (depth : Nat) (hd : e.cd ≤ depth) :
+    evaluate stdOps fns (some f) (depth + 1) (e.render lpOp rpOp ws) = .ok (e.subst f).str :=
+  X.evaluate_render_vars stdOps fns f lpOp rpOp table_full e hw he ws hws depth hd
+
+/-- clause "whitespace never changes the result" (structure part): two expressions that differ only in their blank
+    runs — at top level (`ws₁`, `ws₂`), between a function name and `(`, or anywhere inside call arguments
+    (`X.strip` removes those) — evaluate alike, on a fresh or a used evaluator -/
+theorem whitespace_irrelevant (fns : List Bytes) (f : Bytes → Bytes) (e₁ e₂ : X)
+    (hs : e₁.strip = e₂.strip) (hw₁ : e₁.WF stdOps fns lpOp.prec) (hw₂ : e₂.WF stdOps fns lpOp.prec)
+    (he₁ : e₁.EvAll stdOps f) (he₂ : e₂.EvAll stdOps f) (ws₁ ws₂ : Nat → Bytes) (h₁ : ∀ k, Blank (ws₁ k))
+    (h₂ : ∀ k, Blank (ws₂ k)) (old₁ old₂ : St) :
+    (evaluateReuse stdOps fns (some f) old₁ (e₁.render lpOp rpOp ws₁)).2 =
+      (evaluateReuse stdOps fns (some f) old₂ (e₂.render lpOp rpOp ws₂)).2 := by
+  rw [evaluate_reuse_render fns f e₁ hw₁ he₁ ws₁ h₁, evaluate_reuse_render fns f e₂ hw₂ he₂ ws₂ h₂,
+    X.str_substAll_of_strip f e₁ e₂ hs]
+
+/-- `NextArg` splits at the first comma that is outside parentheses: for a first argument that both counters pass
+    over (`NA 0`: balanced, no comma at depth 0 — every rendered expression, `nextArg_split`) -/
+theorem nextArg_first_comma (a b : Bytes) (ha : NA 0 a) : nextArg (a ++ 44 :: b) = (a, b) :=
+  nextArg_comma a b ha
 
 /-- clause "a reused Evaluator gives the same answers as a fresh one": `parse` resets both stacks, so the result of
     `Evaluate` does not depend on what the evaluator held before -/
@@ -270,10 +379,10 @@ example : ∃ e : E, e.WF lpOp.prec ∧ e.In stdOps [] ∧ e.toTree ≠ .nil := 
   have hm : ⟨symBytes "-", 50, true, true⟩ ∈ stdOps := by decide
   have ht : ⟨symBytes "*", 60, true, false⟩ ∈ stdOps := by decide
   have hpl : ⟨symBytes "+", 50, true, true⟩ ∈ stdOps := by decide
-  have a1 : AtomOK stdOps [49] := ⟨by decide, by decide, by decide⟩
-  have a2 : AtomOK stdOps [50] := ⟨by decide, by decide, by decide⟩
-  have a3 : AtomOK stdOps [51] := ⟨by decide, by decide, by decide⟩
-  have a4 : AtomOK stdOps [52] := ⟨by decide, by decide, by decide⟩
+  have a1 : AtomOK stdOps [49] := ⟨by decide, by decide, by decide, by decide⟩
+  have a2 : AtomOK stdOps [50] := ⟨by decide, by decide, by decide, by decide⟩
+  have a3 : AtomOK stdOps [51] := ⟨by decide, by decide, by decide, by decide⟩
+  have a4 : AtomOK stdOps [52] := ⟨by decide, by decide, by decide, by decide⟩
   refine ⟨.bin ⟨symBytes "-", 50, true, true⟩ (.atom none [49])
       (.bin ⟨symBytes "*", 60, true, false⟩ (.atom (some ⟨symBytes "-", 50, true, true⟩) [50])
         (.paren none (.bin ⟨symBytes "+", 50, true, true⟩ (.atom none [51]) (.atom none [52])))), ?_, ?_, ?_⟩
@@ -282,5 +391,40 @@ example : ∃ e : E, e.WF lpOp.prec ∧ e.In stdOps [] ∧ e.toTree ≠ .nil := 
     · intro v hv; cases hv; exact ⟨hm, rfl⟩
     · exact ⟨hpl, ⟨(by intro v hv; cases hv), a3⟩, ⟨(by intro v hv; cases hv), a4⟩⟩
   · simp [E.toTree]
+
+/-! non-vacuity of `parse_render` / `evaluate_render_partial`: `max(1 , abs (-2)) * 1.5e-3` — a nested call, a sign
+    inside an argument, an exponent literal; all function names of the regenerated table are lexable atoms -/
+example : ∃ e : X, e.WF stdOps (Facts.fixedFunctions.map symBytes) lpOp.prec ∧ e.Ev ∧ e.cd = 2 := by
+  have hm : (⟨symBytes "-", 50, true, true⟩ : Op) ∈ stdOps := by decide
+  have ht : (⟨symBytes "*", 60, true, false⟩ : Op) ∈ stdOps := by decide
+  have a1 : AtomOK stdOps (symBytes "1") := ⟨by decide, by decide, by decide, by decide⟩
+  have a2 : AtomOK stdOps (symBytes "2") := ⟨by decide, by decide, by decide, by decide⟩
+  have a3 : AtomOK stdOps (symBytes "1.5e-3") := ⟨by decide, by decide, by decide, by decide⟩
+  have f1 : AtomOK stdOps (symBytes "max") := ⟨by decide, by decide, by decide, by decide⟩
+  have f2 : AtomOK stdOps (symBytes "abs") := ⟨by decide, by decide, by decide, by decide⟩
+  have m1 : symBytes "max" ∈ Facts.fixedFunctions.map symBytes := by decide
+  have m2 : symBytes "abs" ∈ Facts.fixedFunctions.map symBytes := by decide
+  have hn : optIn stdOps none := by intro v hv; cases hv
+  have hs : optIn stdOps (some ⟨symBytes "-", 50, true, true⟩) := by intro v hv; cases hv; exact ⟨hm, rfl⟩
+  have b0 : ∀ k : Nat, Blank ((fun _ => []) k) := by intro k c hc; cases hc
+  have b1 : ∀ k : Nat, Blank ((fun _ => [32]) k) := by intro k c hc; simp at hc; subst hc; decide
+  refine ⟨.bin ⟨symBytes "*", 60, true, false⟩
+      (.call none (symBytes "max") [] (.cons (.atom none (symBytes "1")) (fun _ => [32])
+        (.cons (.call none (symBytes "abs") [32]
+          (.cons (.atom (some ⟨symBytes "-", 50, true, true⟩) (symBytes "2")) (fun _ => []) .nil)) (fun _ => []) .nil)))
+      (.atom none (symBytes "1.5e-3")), ?_, ?_, ?_⟩
+  · simp only [X.WF, XL.WF, X.minPrec, geP, gtP]
+    exact ⟨ht, by decide, by decide, by decide,
+      ⟨hn, f1, m1, b0 0, ⟨hn, a1⟩, b1,
+        ⟨hn, f2, m2, b1 0, ⟨hs, a2⟩, b0, trivial⟩, b0, trivial⟩,
+      ⟨hn, a3⟩, trivial, trivial⟩
+  · simp only [X.Ev, XL.Ev]; decide
+  · simp [X.cd, XL.cd]
+
+/-! all function names of the regenerated fixed and float tables are lexable atoms without `,` and `$` (so every
+    standard function can head a call node of `X`) -/
+example : ∀ f ∈ Facts.fixedFunctions.map symBytes ++ Facts.floatFunctions.map symBytes,
+    (f ≠ [] ∧ (∀ c ∈ f, 32 < c ∧ c < 128) ∧ atomScan stdOps [] f = true ∧ f.getLast? ≠ some 101) ∧
+      (44 : Nat) ∉ f ∧ (36 : Nat) ∉ f := by decide
 
 end C09
